@@ -16,6 +16,16 @@ lines (plain, with entry point, issued by a macro / a nested macro / a REPT body
 itself opened) put at any point - in selected and in skipped branches, at any depth, followed by nothing, by the rest of the
 skeleton or by arbitrary statements; the SPEC (`AssembledAt`, `OpenAtEnd`) says which END ends the pass and that whatever is open
 there is an error; the MODEL is `runL`/`passL`.
+Statements other than instructions that the conditional machinery must silence as well: leaves may be preprocessor lines (`#define` /
+`#undef` with a replacement in force, LEAF_KINDS D / U, Lean leaf kinds ppDefine / ppUndef, `effectsOf (selB b)` vs the probes behind the
+construct), the marker byte may come out of an INCLUDE file, and plain leaves standing in a block that is certainly not assembled are
+spelled as statements with drastic effects (BOMBS: invalid / incomplete `#` lines, redefinitions of the header's symbols and replacements,
+FATAL/ERROR/WARNING/MESSAGE, INCLUDE/BINCLUDE of missing files, END, CPU/ORG/PHASE/SEGMENT/RADIX/LISTING/SHARED/SECTION/SAVE/RESTORE,
+macro / structure definitions, EXITM/SHIFT - the latter two are the finding SIG_EXITM and run alone).
+Target history (class of C12-k): the keyword of the SWITCH construct is SELECT exactly while an OLMS-50 target is selected; packed cases
+are preceded by visits to such targets or stand as a whole under one, `history_program` programs change the target between their
+constructs, begin without a CPU statement, need two passes, end under an occupying target, and run several per asl invocation;
+`Generated/Occupied.lean` + `C12_occupied_flags_reset` / `C12_switch_keyword_by_current_target` (Model/CondKw.lean) are the static side.
 """
 import itertools
 import json
@@ -30,6 +40,7 @@ from . import c12_env
 SIG_IFB = "ifb-every-second-argument-skipped"
 SIG_ARMLESS = "dead-armless-switch-warns"
 SIG_SEGV = "lone-elsecase-segv"
+SIG_EXITM = "skipped-exitm-outside-macro-reported"
 
 HEADER = """\tcpu z80
 T1\tequ 1
@@ -105,7 +116,23 @@ def val_asm(rng, tok):
 
 # leaf kinds that involve a symbol: letter -> (weight, code bytes reserved)
 LEAF_KINDS = {"i": (2, 2), "p": (2, 1), "m": (4, 1), "n": (1.5, 1), "g": (1, 1), "k": (1, 1), "s": (1.5, 1), "e": (1.5, 0), "t": (1, 0),
-              "u": (1.5, 1)}
+              "u": (1.5, 1), "D": (1.5, 0), "U": (1.5, 0)}
+# D / U: preprocessor lines `#define w<sym> <marker>` / `#undef v<sym>` (v<sym> has a replacement in force in front of the construct);
+# ordinary symbols of the same names (value FFFF) show through when the replacement is not there
+# EXITM / SHIFT outside a macro body: the unchanged tree reports them also in a block that is not assembled (finding SIG_EXITM);
+# cases holding one run alone (an error costs the whole pack its code file)
+RARE_BOMBS = ["\texitm", "\tshift", "\tEXITM"]
+OLMS_CPUS = ["msm5054", "msm5055", "msm5056", "msm6051", "msm6052"]      # targets where SWITCH is a machine instruction: the construct is SELECT
+
+# statements with a drastic effect, spelled where a plain leaf stands in a block that is certainly not assembled (the first block of
+# `IF <false>`, the ELSEIF / ELSE blocks behind `IF <true>`, at any depth below): "a line that is not assembled has no effect at all"
+# for every kind of line - preprocessor lines (valid, invalid), messages, file inclusion, END, target / counter / listing / macro statements
+BOMBS = ["#foo", "#", "#define", "#include <x.h>", "#undef", "#undef T1", "#define T1 0", "#define F0 1", "#define db dw", "#define endif",
+         '\tfatal "x"', '\terror "x"', '\twarning "x"', '\tmessage "238"', "\tinclude nofile.inc", '\tinclude "lvinc.inc"', "\tbinclude nofile.bin",
+         "\tnosuchop 1", "\tcpu nosuch", "\tcpu 8051", "\tcpu msm5054", "\torg 70000", "\torg $+3", "\tphase 5", "\tdephase", "\tdb 238,239", "\tds 3", "\talign 16",
+         "\tlisting off", "\tshared T1", "\tsection xs", "\tendsection", "\tend", "\tradix 2", "\tsegment data", "T1\tequ 5", "F0\t:= 1", "SEL3\tequ 4",
+         "lvp\tmacro\n\tendm", "\trept 2\n\tdb 238\n\tendm", "\tendm", "srec\tstruct\nfb\tds 2\nsrec\tendstruct", "\tcharset 'a','z',1",
+         "\tsave", "\trestore", "\tpushv T1", "\tselect 1", "\tpagesize 5", "\tassume x:1", "DEFD:", "USEDS:\tdb 238", "\tdb UNUS", "\tdb NDEF"]
 ELEM = 500          # Spec.elemSym
 
 
@@ -141,6 +168,10 @@ def spell_leaf(rng, kind, sym):
         return rng.choice(["%s\tequ %%d", "%s\t= %%d", "%s:\tequ %%d"]) % n
     if kind == "t":
         return rng.choice(["%s\t:= %%d", "%s\teval %%d"]) % n
+    if kind == "D":
+        return rng.choice(["#define w@x%d %%d", "#DEFINE w@x%d %%d", " #define w@x%d %%d", "\t#define\tw@x%d\t%%d"]) % sym
+    if kind == "U":
+        return rng.choice(["#undef v@x%d", "#UNDEF v@x%d", " #undef v@x%d", "\t#undef\tv@x%d "]) % sym
     return "\tdb r@x%d" % sym
 
 
@@ -149,7 +180,7 @@ def decorate(rng, block, st, p):
     res = []
     for node in block:
         if node[0] == "leaf":
-            if len(node) == 1 and st["n"] < 8 and rng.random() < p:
+            if len(node) == 1 and st["n"] < st.get("cap", 8) and rng.random() < p:
                 st["n"] += 1
                 res.append(["leaf", rng.choices(st["kinds"], st["weights"])[0], st["n"]])
             else:
@@ -183,7 +214,7 @@ def share_labels(rng, block, st):
         if node[0] == "leaf":
             continue
         branches = ([node[2]] if node[0] == "if" else []) + [b for _, b in node[3]] + ([node[4]] if node[4] is not None else [])
-        cands = [[l for l in sym_leaves(b, []) if l[1] != "u" and id(l) not in st["shared"]] for b in branches]
+        cands = [[l for l in sym_leaves(b, []) if l[1] not in "uDU" and id(l) not in st["shared"]] for b in branches]
         have = [i for i, c in enumerate(cands) if c]
         if len(have) >= 2 and rng.random() < 0.5:
             i, j = rng.sample(have, 2)
@@ -195,7 +226,7 @@ def share_labels(rng, block, st):
             share_labels(rng, b, st)
 
 
-def flatten(rng, block, out, macros=False):
+def flatten(rng, block, out, macros=False, dead=False, kw="switch"):
     """skeleton (python tree) -> list of (token, asm|None); markers are numbered in source order.
     With macros=True a leaf-only IFB/IFNB ladder may be written as a call of a macro whose body is the ladder
     (blank / non-blank *macro arguments*)."""
@@ -203,6 +234,11 @@ def flatten(rng, block, out, macros=False):
         if node[0] == "leaf":
             if len(node) == 3:
                 out.append(("L:%s%d" % (node[1], node[2]), spell_leaf(rng, node[1], node[2])))
+            elif macros and dead and rng.random() < 0.35:
+                out.append(("L", rng.choice(RARE_BOMBS if rng.random() < 0.004 else BOMBS)))
+            elif macros and rng.random() < 0.04:
+                # the marker byte comes out of an INCLUDE file (`db INCM`)
+                out.append(("L", "INCM\teval %d\n\tinclude " + rng.choice(["lvinc.inc", '"lvinc.inc"'])))
             elif macros and rng.random() < 0.25:
                 out.append(("L", "\t%s %%d" % rng.choice(LEAF_MACROS)))
             else:
@@ -216,24 +252,25 @@ def flatten(rng, block, out, macros=False):
         elif node[0] == "if":
             _, cond, blk, elifs, els = node
             out.append(cond_stmt(rng, cond))
-            flatten(rng, blk, out, macros)
+            d1, d2 = dead or cond == ("e", 0), dead or cond == ("e", 1)
+            flatten(rng, blk, out, macros, d1, kw)
             for c, b in elifs:
                 out.append(("EI1:%d" % c, "\t%s %s" % (rng.choice(["elseif", "elseif", "ELSEIF"]), rng.choice(TRUE_EXPR if c else FALSE_EXPR))))
-                flatten(rng, b, out, macros)
+                flatten(rng, b, out, macros, d2, kw)
             if els is not None:
                 out.append(("EI0:0", "\t" + rng.choice(["else", "elseif", "ELSE"])))
-                flatten(rng, els, out, macros)
+                flatten(rng, els, out, macros, d2, kw)
             out.append(("EN0", "\t" + rng.choice(["endif", "endif", "ENDIF"])))
         else:
             _, sel, pre, cases, els = node
-            out.append(("S1:" + sel, "\tswitch " + val_asm(rng, sel)))
-            flatten(rng, pre, out, macros)
+            out.append(("S1:" + sel, "\t%s %s" % (kw, val_asm(rng, sel))))
+            flatten(rng, pre, out, macros, dead, kw)
             for vals, b in cases:
                 out.append(("C:" + ",".join(vals), "\tcase " + ",".join(val_asm(rng, v) for v in vals)))
-                flatten(rng, b, out, macros)
+                flatten(rng, b, out, macros, dead, kw)
             if els is not None:
                 out.append(("EC0", "\telsecase"))
-                flatten(rng, els, out, macros)
+                flatten(rng, els, out, macros, dead, kw)
             out.append(("ED0", "\tendcase"))
     return out
 
@@ -265,7 +302,7 @@ USE_PROBES = [
 ]
 
 
-def make_case(rng, tag, toks, asm, n):
+def make_case(rng, tag, toks, asm, n, cpu=None):
     """a packed case: statements, the symbols its leaves are about, the probes behind the construct.
     Window: [base, base+cw) code, then 2 bytes per probe."""
     pro, probes, seen, cw = [], [], set(), 1
@@ -282,23 +319,43 @@ def make_case(rng, tag, toks, asm, n):
             pro.append("r@x%d\tequ %s" % (sym, m))
             probes.append(("u", sym, rng.choice(USE_PROBES).replace("N", "r@x%d" % sym)))
             continue
+        if kind in "DU":
+            if ("x", sym) in seen:
+                continue
+            seen.add(("x", sym))
+            nm = ("w@x%d" if kind == "D" else "v@x%d") % sym
+            pro.append("%s\tequ 0ffffh" % nm)
+            if kind == "D":
+                # in force behind the construct <=> the line reads `dw <marker>` (otherwise the symbol: FFFF)
+                probes.append(("x", sym, rng.choice(["\tdw N", "\tif N<>0ffffh\n\tdw 1\n\telse\n\tdw 0ffffh\n\tendif"]).replace("N", nm)))
+            else:
+                pro.append("#define %s %d" % (nm, rng.choice([1, 7, 300])))
+                probes.append(("x", sym, "\tif N==0ffffh\n\tdw 1\n\telse\n\tdw 0ffffh\n\tendif".replace("N", nm)))
+            continue
         for i in [sym] + ([sym + ELEM] if kind == "s" else []):
             if i not in seen:
                 seen.add(i)
                 probes.append(("d", i, rng.choice(DEF_PROBES).replace("N", sym_name(i))))
     rng.shuffle(probes)
-    return dict(tag=tag, toks=toks, asm=asm, n=n, pro=pro, probes=probes, cw=cw, w=cw + 2 * len(probes))
+    return dict(tag=tag, toks=toks, asm=asm, n=n, pro=pro, probes=probes, cw=cw, w=cw + 2 * len(probes), cpu=cpu,
+                nexitm=sum(1 for a in asm if a in RARE_BOMBS))
 
 
 def case_lines(c, base, idx):
     """source lines of a case placed at `base` as case number `idx` of its file"""
     lines = list(c["pro"]) + ["\torg %d" % base]
+    if c.get("cpu"):
+        lines.append("\tcpu %s" % c["cpu"])
     for a in c["asm"]:
         if a != "":
             lines.append(("\tdb %d" % a) if isinstance(a, int) else a)
+    if c.get("cpu"):
+        lines.append("\tcpu z80")
+    lines.extend(c.get("post", []))
     if c["probes"]:
         lines.append("\torg %d" % (base + c["cw"]))
         lines.extend(p[2] for p in c["probes"])
+    lines.extend(c.get("tail", []))
     return "\n".join(lines).replace("@", str(idx)).split("\n")
 
 
@@ -314,8 +371,8 @@ def case_obs(c, mem, base, errnums, st):
         v = mem[pa] | (mem[pa + 1] << 8)
         if v == 0xFFFF:
             continue
-        if what == "u":
-            syms.append("u%d" % i)
+        if what in "ux":
+            syms.append("%s%d" % (what, i))
         else:
             own = lambda a: str(mem[a]) if base <= a < base + c["cw"] and a in mem else "x"
             syms.append("d%d=%d/%s/%s" % (i, v, own(v), own(v + 1)))
@@ -594,6 +651,106 @@ def end_streams(rng, thorough, dist):
 
 
 # ----------------------------------------------------------------------------------------------
+# target history: programs without the z80 header that change the target between the constructs
+
+MINI_HEADER = "T1\tequ 1\nF0\tequ 0\nDEFD\tequ 7\nUSEDS\tequ 3\nUNUS\tequ 4\nREFU\tequ USEDS+1\nSEL3\tequ 3\n"
+OTHER_CPUS = ["z80", "8051", "6502", "68008", "65c02", "6809", "8086", "z80"]
+
+
+def history_program(rng, dist):
+    """a program of several phases: [CPU <target>] + one construct, the SWITCH construct spelled SELECT exactly while an OLMS-50 target is
+    selected (SWITCH is a machine instruction there; asmif.c CodeIFs).  The first phase may come without any CPU statement (the default
+    target of the invocation: what an earlier pass / an earlier source file of the same invocation selected must not matter); a forward
+    reference may force a further pass.  Leaves are symbol definitions (EQU / SET), probed at the end under the z80.
+    -> make_case dict or None"""
+    nodes = []
+    for _ in range(rng.choice([1, 2, 2, 3, 4])):
+        nodes.append(rand_construct(rng, rng.choice([0, 1, 1, 2]), 4))
+    st = dict(n=0, kinds=["e", "t"], weights=[1, 1], shared=set(), nshared=0, cap=60)
+    nodes = decorate(rng, nodes, st, 1.1)
+    share_labels(rng, nodes, st)
+    out, cur, trail = [], None, []
+    for i, nd in enumerate(nodes):
+        change = None
+        if i > 0 or rng.random() < 0.6:
+            if rng.random() < 0.5:
+                change = rng.choice(OLMS_CPUS)
+            elif rng.random() < 0.85:
+                change = rng.choice(OTHER_CPUS)
+        if change:
+            cur = change
+        occ = cur in OLMS_CPUS
+        trail.append("O" if occ else ("d" if cur is None else "n"))
+        part = flatten(rng, [nd], [], kw=rng.choice(["select", "SELECT"] if occ else ["switch", "SWITCH", "switch"]))
+        if change:
+            if part[0][1] is None:
+                return None
+            part[0] = (part[0][0], "\tcpu %s\n%s" % (change, part[0][1]))
+        out.extend(part)
+    toks, asm, n = number_leaves(out)
+    asm = [a.replace("0ffh", "255") if isinstance(a, str) else a for a in asm]       # (Intel notation is not every target's)
+    if n > st["n"] or n > 200 or any(a is None or isinstance(a, int) for a in asm):
+        return None
+    c = make_case(rng, "history:" + "".join(trail), toks, asm, n)
+    c["post"] = ["\tcpu z80"]
+    if rng.random() < 0.4:
+        c["pro"].append("fw@\tequ late@")
+        c["post"] = ["late@\tequ 1"] + c["post"] if rng.random() < 0.5 else c["post"] + ["late@\tequ 1"]
+        c["fwd"] = True
+    if rng.random() < 0.3:
+        # the program leaves an occupying target selected at its end (for the next pass / the next source of the invocation)
+        c["tail"] = ["\tcpu %s" % rng.choice(OLMS_CPUS)]
+        trail.append("O")
+    key = "".join(trail)
+    key = ("multi-pass," if c.get("fwd") else "") + ("occupying->other" if ("On" in key or "Od" in key) else "occupying-only" if "O" in key else "no-occupying")
+    dist["target_history"][key] = dist["target_history"].get(key, 0) + 1
+    return c
+
+
+def run_session(bdir, wd, name, progs):
+    """several programs as the sources of ONE asl invocation -> list of (obs, source)"""
+    names, srcs = [], []
+    for i, c in enumerate(progs):
+        nm = "%s_%d" % (name, i)
+        src = MINI_HEADER + "\n".join(case_lines(c, 16, i)) + "\n"
+        open(os.path.join(wd, nm + ".asm"), "w").write(src)
+        names.append(nm)
+        srcs.append(src)
+    ef = os.path.join(wd, name + ".err")
+    if os.path.exists(ef):
+        os.unlink(ef)
+    rc, so, se = common.run_tool(bdir, "asl", ["-q", "-n", "-E", name + ".err"] + [n + ".asm" for n in names], wd, timeout=120)
+    byfile = {}
+    if os.path.exists(ef):
+        for line in open(ef, errors="replace"):
+            m = ERR_RE.match(line)
+            if m:
+                byfile.setdefault(m.group(1).strip(), []).append(int(m.group(4)))
+            elif line.startswith("> > >"):
+                byfile.setdefault("?", []).append(-1)
+        os.unlink(ef)
+    res = []
+    for nm, c, src in zip(names, progs, srcs):
+        pf = os.path.join(wd, nm + ".p")
+        pb = open(pf, "rb").read() if os.path.exists(pf) else None
+        for x in (pf, os.path.join(wd, nm + ".asm")):
+            if os.path.exists(x):
+                os.unlink(x)
+        errs = byfile.get(nm + ".asm", []) + byfile.get("?", [])
+        if c.get("fwd") and len(errs) % 2 == 0 and errs[:len(errs) // 2] == errs[len(errs) // 2:]:
+            # the forward reference makes it a two-pass program; the error file does not separate the passes: what pass 1 reported
+            # (the 'no CASE hit' warnings) comes once more from pass 2
+            errs = errs[:len(errs) // 2]
+        st = status_str(rc)
+        if st != "sig":
+            st = "0" if not [e for e in errs if e >= 1000 or e < 0] else (st if st != "0" else "2")
+        mem = (mem_of_pfile(pb) if pb else None) or {}
+        if len(progs) > 1:
+            src = "; source %d of `asl %s`:\n%s" % (names.index(nm) + 1, " ".join(n + ".asm" for n in names), "".join("; ---- %s.asm\n%s" % (n, s) for n, s in zip(names, srcs)) if nm == names[-1] or True else src)
+        res.append(("-;-;sig;-" if st == "sig" else case_obs(c, mem, 16, errs, st), src))
+    return res
+
+# ----------------------------------------------------------------------------------------------
 # running the real assembler
 
 ERR_RE = re.compile(r"^> > > ?([^(:]*)(?:\((\d+)\))?.*?: (error|warning|fatal error|fatal) #(\d+)")
@@ -744,7 +901,7 @@ def cfgs(cfg):
     return "%d %d %d" % cfg
 
 
-def classify(k, tag, toks, obs, src, cfg):
+def classify(k, tag, toks, obs, src, cfg, nexitm=0):
     """-> ('spec'|'corr'|None, dict)"""
     req = "%s %s %s" % (cfgs(cfg), obs, " ".join(toks))
     base = dict(tag=tag, request=req, source=src, driver={a: b for a, b in k.items() if a not in ("mout",)})
@@ -753,6 +910,9 @@ def classify(k, tag, toks, obs, src, cfg):
         why = k.get("why")
         if why == "crash" and k.get("mcrash") == "1":
             sig = SIG_SEGV
+        elif nexitm and why in ("markers", "error-on-wellformed") and [e for e in obs.split(";")[1].split(",") if e != "100"] == ["1805"] * nexitm:
+            # nothing but one 'EXITM not called from within macro' per EXITM / SHIFT line standing (outside a macro) in a skipped block
+            sig = SIG_EXITM
         elif why == "markers" and k.get("ifbsens") == "1" and k.get("alt") == "eq":
             sig = SIG_IFB
         elif (why == "warnings" and k.get("ifbsens") == "1" and k.get("alt") == "eq" and k.get("model") == "eq"
@@ -772,7 +932,7 @@ def classify(k, tag, toks, obs, src, cfg):
 
 def run(args):
     res = common.Result("C12", args.tier, args.seed, "proof")
-    bdir, audit, proof_problems = common.standard_setup(res, "C12", [])
+    bdir, audit, proof_problems = common.standard_setup(res, "C12", ["Occupied"])
     if bdir is None:
         return res.finish()
     drv_ok = not any(p.startswith("driver does not build") for p in proof_problems)
@@ -782,12 +942,13 @@ def run(args):
     dist = dict(E1=0, E2nest=0, E2seq=0, sampled=0, stream_exh=0, stream_rand=0, corpus=0,
                 ladders=0, switches=0, ifb=0, sym=0, depth={}, wellnested_streams=0, illnested_streams=0,
                 predicted_crash=0, err_numbers={}, packs=0, solo_runs=0, leaf_kinds={}, shared_labels=0, symbol_probes=0,
-                symbols_found_defined=0, symbols_found_undefined=0, pass_end={}, end_spelling={})
+                symbols_found_defined=0, symbols_found_undefined=0, pass_end={}, end_spelling={}, target_history={})
     distinct = set()
     evaluations = 0
 
     with common.Workdir("c12") as wd:
         open(os.path.join(wd, "exist.inc"), "w").write("; exists\n")
+        open(os.path.join(wd, "lvinc.inc"), "w").write("\tdb INCM\n")
         if not drv_ok:
             return common.conclude(res, proof_problems, [], [], 0)
         stride, crash, deadwarn, probes = calibrate(bdir, wd)
@@ -800,6 +961,20 @@ def run(args):
         kinds = sorted(LEAF_KINDS)
 
         def add_case(tag, block):
+            r0 = rng.random()
+            if r0 < 0.05:
+                # target history: the whole construct under a target that occupies SWITCH (there the construct is spelled SELECT, SWITCH
+                # being a machine instruction); leaves are symbol definitions (no code under that target), probed after the return to the z80
+                st = dict(n=0, kinds=["e", "t"], weights=[1, 1], shared=set(), nshared=0, cap=40)
+                block = decorate(rng, block, st, 1.1)
+                toks, asm, n = number_leaves(flatten(rng, block, [], macros=False, kw=rng.choice(["select", "select", "SELECT"])))
+                if n > st["n"] or n > 230:
+                    return
+                share_labels(rng, block, st)
+                cpu = rng.choice(OLMS_CPUS)
+                cases.append(make_case(rng, tag, toks, asm, n, cpu=cpu))
+                dist["target_history"]["construct_under_" + cpu] = dist["target_history"].get("construct_under_" + cpu, 0) + 1
+                return
             if rng.random() < 0.55:
                 # leaves about symbols, the same label in branches that exclude each other
                 st = dict(n=0, kinds=kinds, weights=[LEAF_KINDS[k][0] for k in kinds], shared=set(), nshared=0)
@@ -810,6 +985,19 @@ def run(args):
             if n > 230 or len(toks) > 1500:
                 return
             cases.append(make_case(rng, tag, toks, asm, n))
+            if r0 < 0.12:
+                # target history: targets that occupy SWITCH were selected (and left again) in front of the construct - once or several
+                # times, with or without a SELECT construct assembled there
+                hist = []
+                for _ in range(rng.choice([1, 1, 2, 3])):
+                    hist.append("\tcpu %s" % rng.choice(OLMS_CPUS))
+                    if rng.random() < 0.4:
+                        hist.extend(["\tselect %d" % rng.randrange(3), "\tcase 1", "hh@\t:= 1", "\telsecase", "hh@\t:= 2", "\tendcase"])
+                    hist.append("\tcpu %s" % rng.choice(["z80", "z80", "8051", "6502"]))
+                if not hist[-1].endswith("z80"):
+                    hist.append("\tcpu z80")
+                cases[-1]["pro"].extend(hist)
+                dist["target_history"]["occupying_target_in_front"] = dist["target_history"].get("occupying_target_in_front", 0) + 1
             for t in toks:
                 if t[0] == "L" and ":" in t:
                     k = t.split(":")[1][0]
@@ -855,7 +1043,11 @@ def run(args):
 
         packs = []
         cur, room = [], 60000
+        solo_cases = [c for c in cases if c.get("nexitm")]
+        dist["cases_with_exitm_in_skipped_block"] = len(solo_cases)
         for c in cases:
+            if c.get("nexitm"):
+                continue
             if len(cur) >= 1500 or room < c["w"] + 2:
                 packs.append(cur)
                 cur, room = [], 60000
@@ -874,6 +1066,7 @@ def run(args):
 
         reqs, metas = [], []
         n_confirm = 0
+        redo_budget = 30000 if thorough else 2500
         for p, (obs, src, unpos, st, eslist) in zip(packs, pack_results):
             for n in unpos:
                 dist["err_numbers"][n] = dist["err_numbers"].get(n, 0) + 1
@@ -894,6 +1087,10 @@ def run(args):
                     c["src"] = None
                 elif o is None or redo:
                     # the pack as a whole failed (error => no code file): attribute by running the case alone
+                    redo_budget -= 1
+                    if redo_budget < 0:
+                        dist["cases_not_attributed"] = dist.get("cases_not_attributed", 0) + 1
+                        continue
                     o, s1 = run_case_solo(bdir, wd, "redo", c)
                     dist["solo_runs"] += 1
                     c["src"] = s1
@@ -901,6 +1098,15 @@ def run(args):
                     c["src"] = None
                 reqs.append("%s %s %s" % (cfgs(cfg), o, " ".join(c["toks"])))
                 metas.append((c, o))
+        for c in solo_cases:
+            o, s1 = run_case_solo(bdir, wd, "soloex", c)
+            dist["solo_runs"] += 1
+            c["src"] = s1
+            reqs.append("%s %s %s" % (cfgs(cfg), o, " ".join(c["toks"])))
+            metas.append((c, o))
+        if redo_budget < 0:
+            proof_problems.append("%d packed cases of failing packs were not run alone (budget): failures so widespread that only the first %d were attributed"
+                                  % (-redo_budget, 30000 if thorough else 2500))
         answers = common.driver("c12", reqs, timeout=1800)
         evaluations += len(reqs)
         for (c, o), ans in zip(metas, answers):
@@ -916,20 +1122,60 @@ def run(args):
             nd = o.split(";")[3].count("d") if o.count(";") >= 3 else 0
             dist["symbols_found_defined"] += nd
             dist["symbols_found_undefined"] += sum(1 for p in c["probes"] if p[0] == "d") - nd
-            kind, d = classify(k, c["tag"], c["toks"], o, src, cfg)
+            kind, d = classify(k, c["tag"], c["toks"], o, src, cfg, c.get("nexitm", 0))
             if kind == "spec":
                 # confirm on the case alone (packed neighbours must not be blamed)
                 if c["src"] is None and n_confirm < 25:
                     n_confirm += 1
                     o2, s2 = run_case_solo(bdir, wd, "confirm", c)
                     k2 = kv(common.driver("c12", ["%s %s %s" % (cfgs(cfg), o2, " ".join(c["toks"]))])[0])
-                    kind, d = classify(k2, c["tag"], c["toks"], o2, s2, cfg)
+                    kind, d = classify(k2, c["tag"], c["toks"], o2, s2, cfg, c.get("nexitm", 0))
             if kind == "spec":
                 spec_fail.append(d)
             elif kind == "corr":
                 corr_fail.append(d)
             if len(samples) < 3 and c["tag"].startswith("sampled") and c["n"] >= 4 and kind is None:
                 samples.append(dict(tag=c["tag"], source=src[len(HEADER):][:700], observed=o, verdict=ans[:300]))
+
+        # ---------------- target history: programs that change the target between constructs, alone and several per invocation
+        hprogs = []
+        while len(hprogs) < (3000 if thorough else 150):
+            c = history_program(rng, dist)
+            if c is not None:
+                hprogs.append(c)
+        sessions, i = [], 0
+        while i < len(hprogs):
+            k = rng.choice([1, 2, 2, 3])
+            sessions.append(hprogs[i:i + k])
+            i += k
+        dist["target_history"]["invocations"] = len(sessions)
+        dist["target_history"]["invocations_with_several_sources"] = sum(1 for x in sessions if len(x) > 1)
+
+        def do_session(it):
+            return run_session(bdir, wd, "h%d" % it[0], it[1])
+
+        with ThreadPoolExecutor(max_workers=4) as ex:
+            sres = list(ex.map(do_session, enumerate(sessions)))
+        hreqs, hmetas = [], []
+        for sess, rs in zip(sessions, sres):
+            for c, (o, src) in zip(sess, rs):
+                hreqs.append("%s %s %s" % (cfgs(cfg), o, " ".join(c["toks"])))
+                hmetas.append((c, o, src))
+        answers = common.driver("c12", hreqs, timeout=1800)
+        evaluations += len(hreqs)
+        for (c, o, src), ans in zip(hmetas, answers):
+            k = kv(ans)
+            distinct.add(c["tag"] + " " + " ".join(c["toks"]))
+            if k.get("skel") != "1":
+                proof_problems.append("generator/driver: a generated skeleton was not recognised as one: " + c["tag"])
+                continue
+            kind, d = classify(k, c["tag"], c["toks"], o, src, cfg)
+            if kind == "spec":
+                spec_fail.append(d)
+            elif kind == "corr":
+                corr_fail.append(d)
+            if kind is None and len([x for x in samples if x["tag"].startswith("history")]) < 2 and "O" in c["tag"] and c["n"] >= 3:
+                samples.append(dict(tag=c["tag"], source=src[:900], observed=o, verdict=ans[:300]))
 
         # ---------------- arbitrary statement streams, one per file
         streams = list(corpus_streams)
@@ -1005,6 +1251,7 @@ def run(args):
         "correspondence: real asl vs Model/Cond on generated sources (differential test)",
         "generator's spelling of conditions (literal expressions, defined/used symbols, existing file, blank arguments) is the oracle for the evaluated truth values",
         "conditions that test the environment (c12_env.py): the harness inlines the INCLUDE files of a program into one text and names, for every IFEXIST, the file it is written in (what INCLUDE does to the current file name is C11's subject); the number of passes is read from the assembler's own summary; the flag 'IFEXIST also searches the working directory' of the model is probed on the real binary; the INCLUDE oracle (an INCLUDE of the same name in a file of the same directory, assembled by the real asl) must agree with the SPEC's file search",
+        "the spelling of the construct keyword (SELECT while an OLMS-50 target is selected, SWITCH otherwise: asmif.c CodeIFs / codeol50.c SwitchIsOccupied - the manual does not mention SELECT, it only has the target's SWITCH instruction) is the generator's; the Lean model of the statements does not see the target, Model/CondKw.lean models the flag and Generated/Occupied.lean ties its reset to the current sources",
         "symbols: after each packed skeleton every symbol its leaves are about is probed (IFDEF/IFNDEF/DEFINED()/SYMTYPE()/SWITCH DEFINED(): value or FFFF; IFUSED/IFNUSED); the set found defined / referenced is compared with Spec `definedBy (selB b)` / `usedBy (selB b)` and with the model's definition / reference events, label values with the address of the leaf's own code"])
     res.coverage.update(
         evaluations=evaluations, distinct_nontrivial=len([t for t in distinct if t.count(" ") >= 1]),
@@ -1018,6 +1265,8 @@ def run(args):
         "a line that issues END is `end` / `end <entry point>` / a call of a macro (directly or through another macro) or a REPT whose body issues it; the model treats all of them as 'reading stops here' (as.c flushes the running expansions without assembling them)",
         "leaves about symbols occur in the packed well-formed skeletons only (ill-formed streams keep plain leaves); labels stand in front of ordinary lines, not in front of the IF/ELSE/ENDIF/SWITCH/CASE lines themselves",
         "environment stream: referenced symbols are defined in a line that is certainly assembled (in front of or behind the tests: forward references force further passes), SET symbols are only referenced after a definition in front; names with a path specification never exist below a -i directory (the manual's 'the search list is ignored' vs FSearch is C11's subject); a -i list is always given (without one the empty list makes FSearch look into the working directory); SWITCH constructs of this stream always have ELSECASE (the 'no CASE hit' warning is repeated in every pass and the error file does not separate the passes); symbols local to sections are not generated",
+        "text replacements are observed through a line behind the construct that names the replaced identifier, an ordinary symbol of the same name (value FFFF) showing through when no replacement is in force; of a two-pass program (forward reference) the diagnostics of both passes are in one error file: an exact repetition is taken as one pass",
+        "statements with drastic effects (BOMBS) stand only in blocks whose condition is a literal false expression (or behind a literal true one), so that the generator needs no evaluator of its own; they are plain leaves for model and spec",
         "the symbol probes are themselves conditional statements (live, depth 1) and use IFDEF/DEFINED/SYMTYPE/IFUSED as the observation of the symbol table"]
     return common.conclude(res, proof_problems, spec_fail, corr_fail, evaluations)
 
@@ -1029,6 +1278,7 @@ def replay(args):
         bdir = common.repo_build("hooks")
         with common.Workdir("c12r") as wd:
             open(os.path.join(wd, "exist.inc"), "w").write("; exists\n")
+            open(os.path.join(wd, "lvinc.inc"), "w").write("\tdb INCM\n")
             rc, so, errs, pb = asl(bdir, wd, "r", d["source"])
             print("asl status =", rc, "stdout =", so.split(), "diagnostics =", errs)
             if pb:
